@@ -1376,6 +1376,7 @@ func checkC13(w *World, r *Report) {
 	r.Rule("C13.R4", "the chain given at spawn belongs to that spawn alone (fresh middleware slice per Opts)", 2)
 	checkDefaultOptsFresh(w, r, "C13.R4")
 	checkOptionStores(w, r, "C13.R4", "WithMiddleware", "Middleware", "append(P0.Middleware,FV:mw)")
+	checkOptionsAppliedOnce(w, r, "C13.R4")
 	// R3: every delivery site: argument is P0.context / FV:p.context; in the delivery function message and sender stores precede it
 	evD := pr.evDeliver()
 	n := 0
